@@ -277,6 +277,33 @@ def part_b(ctx):
     o = convert_outcome([pc, pd], out, icfp)
     if o == "ok" or finished(out):
         ctx.fail(doc, dict(outcome=o), "files with different samples were accepted")
+    # three files of which only one differs (in every position), sample / contig order differences
+    third = [(1, 300), (1, 400)]
+    pa2 = mkfile(d, "ha2", third)
+    for name in ("retyped-info", "extra-filter", "extra-contig"):
+        recs2 = [(c, p, "DP=1.5" if name == "retyped-info" else "DP=3") for c, p in other]
+        pb = mkfile(d, "hb3", recs2, hdr=perturb[name])
+        for lst in itertools.permutations([pa, pa2, pb]):
+            doc = dict(part="header", perturbation="one-of-three:" + name, position=list(lst).index(pb))
+            ctx.case(doc, nontrivial=True)
+            ctx.count("header:one-of-three")
+            o = convert_outcome(list(lst), out, icfp)
+            if o == "ok" or finished(out):
+                ctx.fail(doc, dict(outcome=o), f"three files of which one has an incompatible header ({name}) were accepted")
+    pe = mkfile(d, "he", base, samples=("S1", "S2"))
+    pf = mkfile(d, "hf", other, samples=("S2", "S1"))
+    doc = dict(part="header", perturbation="sample-order")
+    ctx.case(doc, nontrivial=True)
+    o = convert_outcome([pe, pf], out, icfp)
+    if o == "ok" or finished(out):
+        ctx.fail(doc, dict(outcome=o), "files whose samples are in a different order were accepted")
+    hswap = [HDR[1], HDR[0]] + HDR[2:]
+    pg = mkfile(d, "hg", other, hdr=hswap)
+    doc = dict(part="header", perturbation="contig-order")
+    ctx.case(doc, nontrivial=True)
+    o = convert_outcome([pa, pg], out, icfp)
+    if o == "ok" or finished(out):
+        ctx.fail(doc, dict(outcome=o), "files whose contigs are declared in a different order were accepted")
     # ---- reserved names ----
     for key in INFO_RESERVED + ["DPX"]:
         hdr = HDR + [f'##INFO=<ID={key},Number=1,Type=Integer,Description="clash">']
